@@ -186,6 +186,16 @@ def _twins(ctx, cg):
                 h[k] = alt
                 out.append((opts, f, h, k))
                 break
+    for grp in getattr(cg, "groups", ()):
+        for _ in range(6):
+            g = cg.valid(rng)
+            if any(g.get(k) != f.get(k) for k in grp):
+                h = dict(f)
+                for k in grp:
+                    h[k] = g[k]
+                out.append((opts, f, h, "+".join(grp)))
+                out.append((opts, h, f, "+".join(grp)))      # equality need not be symmetric: try both orders
+                break
     return out
 
 def corr_C14(ctx):
@@ -271,13 +281,15 @@ def oracles_C14(ctx, hints):
             continue
         done = set()
         for _ in range(ctx.scale(8, 300) * (4 if getattr(ctx, "search_mode", False) else 1)):
-            for opts, fa, fb, k in _twins(ctx, cg):
+            twins = _twins(ctx, cg)
+            for opts, fa, fb, k in twins:
                 args = {"cls": cg.cls, "opts": list(opts), "a": fa, "b": fb, "field": k}
                 n += 1
                 w = check_eq(args)
                 if w and ("eq", k) not in done:
                     done.add(("eq", k))
                     fails.append(Failure("eq", args, w, {"class": cg.cls, "check": "eq_sound", "field": k}))
+            opts, fa = twins[0][0], twins[0][1]          # the valid object itself (twins may mix fields)
             args = {"cls": cg.cls, "opts": list(opts), "a": fa}
             n += 2
             if cg.can_pack and cg.can_unpack and "dec" not in done:
